@@ -203,6 +203,18 @@ class HostInterp:
                 env[p] = self.ev(dmap[p], env)
             else:
                 raise AnalysisError(f"interpreting {fn.name}: missing argument {p}")
+        if fn.args.vararg:
+            env[fn.args.vararg.arg] = tuple(args[len(params):])
+        kwonly = [a.arg for a in fn.args.kwonlyargs]
+        for a, dflt in zip(fn.args.kwonlyargs, fn.args.kw_defaults):
+            if a.arg in kwargs:
+                env[a.arg] = kwargs[a.arg]
+            elif dflt is not None:
+                env[a.arg] = self.ev(dflt, env)
+            else:
+                raise AnalysisError(f"interpreting {fn.name}: missing keyword argument {a.arg}")
+        if fn.args.kwarg:
+            env[fn.args.kwarg.arg] = {k: v for k, v in kwargs.items() if k not in params and k not in kwonly}
         if _is_generator(fn):
             # generators are run eagerly: the values yielded, in order
             self._gens = getattr(self, "_gens", [])
@@ -308,8 +320,22 @@ class HostInterp:
                 env[target.id] = value
         elif isinstance(target, (ast.Tuple, ast.List)):
             vals = list(value)
-            for t, v in zip(target.elts, vals):
-                self.bind(t, v, env)
+            stars = [i for i, t in enumerate(target.elts) if isinstance(t, ast.Starred)]
+            if stars:
+                i = stars[0]
+                after = len(target.elts) - i - 1
+                if len(stars) > 1 or len(vals) < len(target.elts) - 1:
+                    raise AnalysisError("interpretation: cannot unpack")
+                for t, v in zip(target.elts[:i], vals[:i]):
+                    self.bind(t, v, env)
+                self.bind(target.elts[i].value, vals[i : len(vals) - after], env)
+                for t, v in zip(target.elts[i + 1 :], vals[len(vals) - after :]):
+                    self.bind(t, v, env)
+            else:
+                if len(vals) != len(target.elts):
+                    raise AnalysisError(f"interpretation: cannot unpack {len(vals)} values into {len(target.elts)} targets")
+                for t, v in zip(target.elts, vals):
+                    self.bind(t, v, env)
         elif isinstance(target, ast.Attribute):
             obj = self.ev(target.value, env)
             if isinstance(obj, Instance):
@@ -367,6 +393,8 @@ class HostInterp:
             if isinstance(obj, ast.AST):
                 return getattr(obj, e.attr)
             if isinstance(obj, self.host_types) and not e.attr.startswith("_"):
+                return getattr(obj, e.attr)
+            if any(obj is t for t in (dict, list, str, tuple, set, frozenset)) and (not e.attr.startswith("_") or e.attr in ("__getitem__", "__setitem__", "__contains__")):
                 return getattr(obj, e.attr)
             import re as _re
 
@@ -597,6 +625,11 @@ class HostInterp:
         import re as _re
         import textwrap as _tw
 
+        if callable(fn) and any(getattr(fn, "__self__", None) is t or getattr(fn, "__objclass__", None) is t for t in (dict, list, str, tuple, set, frozenset)):
+            try:
+                return fn(*args, **kwargs)
+            except (TypeError, ValueError, KeyError, IndexError) as ex:
+                raise AnalysisError(f"interpretation: {d or fn} failed on abstract values: {type(ex).__name__}: {ex}")
         if fn in SAFE_BUILTINS.values() or (callable(fn) and getattr(fn, "__self__", None) is not None and isinstance(fn.__self__, self.host_types + (_re.Match,))) or getattr(fn, "__module__", None) in ("re", "textwrap", "itertools", "functools"):
             try:
                 return fn(*args, **kwargs)
